@@ -35,7 +35,7 @@ ASSUMPTIONS = ['gfortran 12 -O0 with -fcheck=bounds,do -ftrapv -ffpe-trap -fcray
                'while the finding "FtrPtr pointer target section one element too long" is listed, the upper bound of these sections '
                'is reduced by one before compiling, so that -fcheck=bounds still detects any OTHER under-allocation',
                'the compilation units of a project are concatenated into one file before compiling (original and candidate alike)']
-SHARDS = {'quick': 8, 'thorough': 16}
+SHARDS = {'quick': 6, 'thorough': 16}
 BUDGET = {'quick': 80, 'thorough': 1500}
 
 ALLOCATORS = ['hoist', 'hoist-alloc', 'pool', 'rawstack', 'ftrptr', 'directidx']
@@ -48,13 +48,19 @@ TRIGGER_SIGS = {
     'directidx_offset_dropped': 'C38:directidx_offset_dropped:wrong-result',
     'directidx_stack_one_short': 'C38:directidx_stack_one_short:stack-array-out-of-bounds',
     'rawstack_kind_only_in_callee': 'C38:rawstack_kind_only_in_callee:candidate-does-not-compile',
+    'sccs_stack_positional': 'C38:sccs_stack_positional:candidate-does-not-compile',
+    'pool_empty_stack': 'C38:pool_empty_stack:wrong-result',
 }
 
 # the SCC stage of the SCC*Stack pipelines is judged by C37: the triggers of ITS known findings are switched off here
 _COMMON = dict(temp_shapes=['r1', 'r2', 'r2', 'r2z', 'r2p', 'r2c', 'r3', 'v1'], temp_types=['real', 'real', 'real4', 'int', 'log'],
-               driver_bounds_in_section=False, edge_uniform=False)
+               driver_bounds_in_section=False, edge_uniform=False, uniform_reassign=False)
 PROFILE = gen_scc.profile(max_temps=4, **_COMMON)
 PROFILE_THOROUGH = gen_scc.profile(max_temps=5, max_kernels=4, max_blocks=7, **_COMMON)
+
+
+def pool_may_be_empty(m):
+    return bool(m['ns'].get('alias')) or all(t['shape'] == 'v1' for k in m['kernels'] for t in k['temps'])
 
 
 def case_triggers(case):
@@ -69,6 +75,11 @@ def case_triggers(case):
                                (no DirectIdx variant is generated while either of the two is listed; their replays are hand-written)
       rawstack_kind_only_in_callee Raw stack: a kernel without a stack temporary of some type/kind calls a kernel that has one
                                (gen_scc.rawstack_kind_only_in_callee, conservative)
+      sccs_stack_positional        SCCS{RawStack,StackFtrPtr,StackDirectIdx}Pipeline: the sequential revector stage appends the horizontal
+                               index to the kernel dummies and passes it by keyword, the stack stage then appends its dummies
+                               after it but passes the actuals positionally (same pattern as C37 shoist_positional)
+      pool_empty_stack             pool allocator (cray_ptr_loc_rhs=False) when no temporary is pool-allocated (kernel-side size aliases
+                               are not recognised by it, or only vertical temporaries): LOC(ZSTACK(1, b)) of a zero-size stack
       stack_dummy_contiguous   FtrPtr / DirectIdx stack: the explicit-shape stack dummy is declared CONTIGUOUS (rejected by gfortran);
                                present whenever the attribute is NOT stripped (variant flag keep_contiguous)
     """
@@ -80,6 +91,10 @@ def case_triggers(case):
         t.append('stack_dummy_contiguous')
     if v['alloc'] == 'ftrptr' and v.get('keep_ptr_upper'):
         t.append('ftrptr_section_one_too_long')
+    if v['alloc'] == 'pool' and not v.get('loc_rhs') and 'model' in case and pool_may_be_empty(case['model']):
+        t.append('pool_empty_stack')
+    if v.get('scc') == 'S' and v['alloc'] in ('rawstack', 'ftrptr', 'directidx'):
+        t.append('sccs_stack_positional')
     if v['alloc'] == 'rawstack' and 'model' in case and gen_scc.rawstack_kind_only_in_callee(case['model']):
         t.append('rawstack_kind_only_in_callee')
     return t
@@ -174,6 +189,9 @@ def check_case(case, ctx):
     ctx.case(case, nontrivial, classes)
     if nontrivial and (not ctx.samples or (len(ctx.samples) < 3 and ctx.evaluations % 4 == 0)):
         ctx.sample({'variant': v, 'transformed': '\n'.join(t for n, t in cand if n != 'parkind1.F90')[:3000]})
+    if ctx.budget is not None and ctx.time_left() < -120:
+        ctx.note('evaluation abandoned before the candidate build: budget exceeded by more than 120 s (overloaded machine)')
+        return
     res = scc_run.build_run('cand', cand, main)
     bad = scc_run.compare(orig, res)
     if bad:
@@ -205,9 +223,15 @@ def cases(draw, prof, triggers, first=0, salt=None):
         v = dict(alloc=a)
         if a in SCC_PIPE and g.chance(30):
             v['scc'] = g.pick(['V', 'S'])
+            if v['scc'] == 'S' and a != 'pool' and not triggers['sccs_stack_positional']:
+                avoided.append('sccs_stack_positional')
+                v['scc'] = 'V'
             v['demote'] = int(not g.chance(30))
         if a == 'pool':
             v['loc_rhs'] = int(g.chance(50))
+            if not v['loc_rhs'] and not triggers['pool_empty_stack'] and pool_may_be_empty(m):
+                avoided.append('pool_empty_stack')
+                v['loc_rhs'] = 1
         if a in ('hoist', 'hoist-alloc'):
             v['as_kwarguments'] = int(g.chance(40))
             v['dim_vars'] = int(g.chance(40))
